@@ -10,6 +10,9 @@ import (
 	"strconv"
 	"strings"
 
+	r "github.com/DemoHn/Zn/pkg/runtime"
+	"github.com/DemoHn/Zn/pkg/value"
+
 	"verifharness/internal/pool"
 	"verifharness/internal/zn"
 )
@@ -310,3 +313,282 @@ func lastLine(s string) string {
 }
 
 func init() { pool.Register("expr", handleExpr) }
+
+// ---------------------------------------------------------------------------------------------
+// IEEE facet (family I of ZnExpr): slot trees with their LOWERED primitive code.  The harness supplies
+// doubles for the slots, runs the lowered code over float64 (the primitives are Go's + - * / Floor and
+// the four ordered comparisons: their IEEE behaviour is not in question) and compares with the
+// interpreter, bit for bit.
+
+type iInstr struct {
+	I   string      `json:"i"`
+	P   string      `json:"p"`
+	ID  interface{} `json:"id"`
+	V   *exVal      `json:"v"`
+	Op  string      `json:"op"`
+	Off int         `json:"off"`
+}
+
+type iTok struct {
+	K  string      `json:"k"`
+	V  *exVal      `json:"v"`
+	Op string      `json:"op"`
+	ID interface{} `json:"id"`
+}
+
+type iexprCase struct {
+	MT    []iTok     `json:"mt"`
+	Code  []iInstr   `json:"code"`
+	Vals  [][]string `json:"vals"` // assignments: one list of doubles (as text) per run
+	Style int        `json:"style"`
+}
+
+type ival struct {
+	t string // num bool str null
+	f float64
+	b bool
+	s string
+}
+
+func parseDouble(s string) float64 {
+	switch s {
+	case "NaN":
+		return math.NaN()
+	case "+Inf":
+		return math.Inf(1)
+	case "-Inf":
+		return math.Inf(-1)
+	case "-0":
+		return math.Copysign(0, -1)
+	}
+	f, _ := strconv.ParseFloat(s, 64)
+	return f
+}
+
+func fromExVal(v *exVal) ival {
+	switch v.T {
+	case "num":
+		return ival{t: "num", f: float64(v.N) / float64(v.D)}
+	case "bool":
+		return ival{t: "bool", b: v.B}
+	case "str":
+		return ival{t: "str", s: v.S}
+	}
+	return ival{t: "null"}
+}
+
+func slotNo(id interface{}) int {
+	if f, ok := id.(float64); ok {
+		return int(f)
+	}
+	return 0
+}
+
+// runLowered executes the primitive code; returns (value, isErr, probe order)
+func runLowered(code []iInstr, env []float64) (ival, bool, []string) {
+	var st []ival
+	var ord []string
+	pc := 0
+	for pc < len(code) {
+		in := code[pc]
+		n := len(st)
+		switch in.I {
+		case "push":
+			st = append(st, fromExVal(in.V))
+		case "probe":
+			st = append(st, fromExVal(in.V))
+			ord = append(ord, fmt.Sprint(in.ID))
+		case "slot":
+			st = append(st, ival{t: "num", f: env[slotNo(in.ID)-1]})
+		case "jsc":
+			top := st[n-1]
+			if top.t != "bool" {
+				return ival{}, true, ord
+			}
+			if (in.Op == "and" && !top.b) || (in.Op == "or" && top.b) {
+				pc += in.Off + 1
+				continue
+			}
+			st = st[:n-1]
+		case "chkbool":
+			if st[n-1].t != "bool" {
+				return ival{}, true, ord
+			}
+		case "prim":
+			var a, b ival
+			if n >= 2 {
+				a = st[n-2]
+			}
+			if n >= 1 {
+				b = st[n-1]
+			}
+			bin := func(v ival) { st = append(st[:n-2], v) }
+			switch in.P {
+			case "chknum2":
+				if a.t != "num" || b.t != "num" {
+					return ival{}, true, ord
+				}
+			case "chkz":
+				if b.f == 0 {
+					return ival{}, true, ord
+				}
+			case "dup2":
+				st = append(st, a, b)
+			case "fadd":
+				bin(ival{t: "num", f: a.f + b.f})
+			case "fsub":
+				bin(ival{t: "num", f: a.f - b.f})
+			case "fmul":
+				bin(ival{t: "num", f: a.f * b.f})
+			case "swapmul":
+				bin(ival{t: "num", f: b.f * a.f})
+			case "fdiv":
+				bin(ival{t: "num", f: a.f / b.f})
+			case "floor":
+				st[n-1] = ival{t: "num", f: math.Floor(b.f)}
+			case "flt":
+				bin(ival{t: "bool", b: a.f < b.f})
+			case "fgt":
+				bin(ival{t: "bool", b: a.f > b.f})
+			case "fle":
+				bin(ival{t: "bool", b: a.f <= b.f})
+			case "fge":
+				bin(ival{t: "bool", b: a.f >= b.f})
+			case "veq":
+				eq := a.t == b.t
+				if eq {
+					switch a.t {
+					case "num":
+						eq = a.f == b.f
+					case "bool":
+						eq = a.b == b.b
+					case "str":
+						eq = a.s == b.s
+					}
+				}
+				bin(ival{t: "bool", b: eq})
+			case "not":
+				st[n-1] = ival{t: "bool", b: !b.b}
+			}
+		}
+		pc++
+	}
+	return st[len(st)-1], false, ord
+}
+
+func handleIExpr(raw json.RawMessage) interface{} {
+	var c iexprCase
+	if err := json.Unmarshal(raw, &c); err != nil {
+		return map[string]interface{}{"obs": "harness-error", "detail": err.Error()}
+	}
+	// render once
+	nslot := 0
+	var parts []string
+	for _, t := range c.MT {
+		switch t.K {
+		case "lb":
+			parts = append(parts, "{")
+		case "rb":
+			parts = append(parts, "}")
+		case "op":
+			if s, ok := opKw[t.Op]; ok && c.Style == 1 {
+				parts = append(parts, s)
+			} else {
+				parts = append(parts, opSym[t.Op])
+			}
+		case "leaf":
+			parts = append(parts, leafText(t.V, 0))
+		case "probe":
+			parts = append(parts, "（"+fmt.Sprint(t.ID)+"）")
+		case "slot":
+			k := slotNo(t.ID)
+			if k > nslot {
+				nslot = k
+			}
+			parts = append(parts, fmt.Sprintf("槽%d", k))
+		}
+	}
+	expr := strings.Join(parts, " ")
+	var names []string
+	for k := 1; k <= nslot; k++ {
+		names = append(names, fmt.Sprintf("槽%d", k))
+	}
+	src := "输入" + strings.Join(names, "、") + "\n" + probePrelude + "输出 " + expr + "\n"
+	var ms []map[string]interface{}
+	runs := 0
+	for _, vs := range c.Vals {
+		env := make([]float64, len(vs))
+		inputs := map[string]r.Element{}
+		for k, s := range vs {
+			env[k] = parseDouble(s)
+			if k < nslot {
+				inputs[names[k]] = value.NewNumber(env[k])
+			}
+		}
+		want, wantErr, ord := runLowered(c.Code, env)
+		o := zn.RunScript(src, inputs)
+		runs++
+		mism := func(kind, w, g string) {
+			ms = append(ms, map[string]interface{}{"kind": kind, "expr": expr, "vals": vs, "want": w, "got": g})
+		}
+		gotS := func() string {
+			if o.Obs == "error" {
+				return fmt.Sprintf("error[%d] %s", o.Code, lastLine(o.Msg))
+			}
+			b, _ := json.Marshal(o.Val)
+			return string(b)
+		}
+		if o.Obs != "value" && o.Obs != "error" {
+			mism(o.Obs, "value or error", gotS())
+			continue
+		}
+		if o.Obs == "error" && o.ErrKind == "syntax" {
+			mism("syntax-error", "value or error", gotS())
+			continue
+		}
+		if wantErr {
+			if o.Obs != "error" {
+				mism("ieee:value-for-error", "error", gotS())
+			}
+			continue
+		}
+		if o.Obs != "value" {
+			mism("ieee:error-for-value", fmt.Sprint(want), gotS())
+			continue
+		}
+		var ids []string
+		for _, d := range o.Display {
+			if args, ok := d.([]interface{}); ok && len(args) == 1 {
+				if v, ok := args[0].(zn.V); ok {
+					ids = append(ids, fmt.Sprint(v["v"]))
+				}
+			}
+		}
+		if strings.Join(ids, ",") != strings.Join(ord, ",") {
+			mism("ieee:probe-order", strings.Join(ord, ","), strings.Join(ids, ","))
+			continue
+		}
+		v := o.Val
+		switch want.t {
+		case "num":
+			if v["t"] != "num" || v["s"] != zn.NumStr(want.f) {
+				mism("ieee:value-mismatch", "num "+zn.NumStr(want.f), gotS())
+			}
+		case "bool":
+			if v["t"] != "bool" || v["v"] != want.b {
+				mism("ieee:value-mismatch", fmt.Sprintf("bool %v", want.b), gotS())
+			}
+		case "str":
+			if v["t"] != "str" || v["v"] != want.s {
+				mism("ieee:value-mismatch", fmt.Sprintf("str %q", want.s), gotS())
+			}
+		case "null":
+			if v["t"] != "null" {
+				mism("ieee:value-mismatch", "null", gotS())
+			}
+		}
+	}
+	return map[string]interface{}{"obs": "done", "runs": runs, "mism": ms}
+}
+
+func init() { pool.Register("iexpr", handleIExpr) }
